@@ -95,6 +95,17 @@ func runGates(tier string, seed int64, phase string) {
 		}
 	}
 	emit(Event{"op": "SourceTotal", "total": src.total})
+	// working sources that hand out their bytes in pieces (a pipe, a socket, a hardware generator): still working
+	for _, ch := range []int{1, 7, 16, 31} {
+		maybeCutNow()
+		cs := &scriptReader{fill: newRng(seed, "gates/chunk"), after: "data", chunk: ch}
+		swapSource(cs, "chunked")
+		for _, lang := range langs {
+			for _, n := range []int64{12, 15, 18, 21, 24, 13, 0, 27} {
+				recNewMnemonic(n, lang, Event{"fam": "chunked"})
+			}
+		}
+	}
 	swapSource(osRandReader(), "os")
 }
 
